@@ -628,7 +628,10 @@ def translated_obligations(ctx):
                 ctx.proof_failures.append({"what": "equivalence theorem missing from %s" % en["equiv"], "theorem": t,
                                            "stderr": err[-800:]})
                 continue
-            bad = [a for a in per[t] if not any(r.fullmatch(a) for r in allowed)]
+            # the binary64 instance of a generated definition mentions the primitive float type and
+            # operations (declared by Coq, listed by Print Assumptions): whitelisted per entry
+            allowed_t = allowed + [re.compile(a) for a in en.get("axioms_ok", [])]
+            bad = [a for a in per[t] if not any(r.fullmatch(a) for r in allowed_t)]
             ctx.axioms = sorted(set(ctx.axioms) | per[t])
             if bad:
                 ctx.proof_failures.append({"what": "equivalence theorem depends on an axiom outside the property's whitelist",
